@@ -2,6 +2,7 @@ package ref
 
 import (
 	"fmt"
+	"sort"
 
 	"verif/mc/gen"
 )
@@ -57,6 +58,16 @@ func init() {
 		"import", "as", "module", "package", "namespace", "assert", "debugger"} {
 		reserved[w] = true
 	}
+}
+
+// ReservedWords lists the reserved identifiers (sorted).
+func ReservedWords() []string {
+	var out []string
+	for w := range reserved {
+		out = append(out, w)
+	}
+	sort.Strings(out)
+	return out
 }
 
 // Resolution records which overload a call resolved to (for the evaluator).
